@@ -285,6 +285,10 @@ def mon_regenerate(g, old, old_args, sel, obs, args, fails, tag):
         return
     N, O = obs["choices"], old["choices"]
     selected = {p for p in sites_new if selmod.ref_selected(sel, gfi.strip_lanes(p))}
+    if conds_old != conds_new:
+        # C04 quantifies over "argument changes that keep Cond conditions fixed": after a branch switch only
+        # coherence (checked above) is claimed
+        return
     for p in N:
         if p in sites_new and p in sites_old and p not in selected and N[p] != O.get(p):
             fails.append((tag, f"unselected address {p} changed from {float(O[p])} to {float(N[p])}"))
